@@ -41,4 +41,17 @@ def nmtSpec (cs : List Char) : List Char :=
   (cs.filter fun c => !inRanges Generated.NMT_REMOVED c.toNat).map fun c =>
     if inRanges Generated.NMT_BLANKED c.toNat then ' ' else c
 
+/-- The sets NMT lists, written out here (C11: "NMT removes or blanks exactly its listed control and format
+    characters"): removed U+0001–0008, U+000B, U+000E–001F, U+007F, U+008F, U+009F; blanked U+0000, U+000A, U+000C,
+    U+000D, U+1680, U+200B–200F, U+2028, U+2029, U+2581, U+FEFF, U+FFFD. The tables regenerated from the source are
+    compared with these by `C11.nmt_tables_listed`; the driver judges the implementation against these. -/
+def NMT_REMOVED_LISTED : List (Nat × Nat) := [(1, 8), (14, 31), (11, 11), (127, 127), (143, 143), (159, 159)]
+def NMT_BLANKED_LISTED : List (Nat × Nat) :=
+  [(0, 0), (10, 10), (12, 12), (13, 13), (5760, 5760), (8203, 8207), (8232, 8232), (8233, 8233), (9601, 9601),
+   (65279, 65279), (65533, 65533)]
+
+def nmtSpecListed (cs : List Char) : List Char :=
+  (cs.filter fun c => !inRanges NMT_REMOVED_LISTED c.toNat).map fun c =>
+    if inRanges NMT_BLANKED_LISTED c.toNat then ' ' else c
+
 end Kitoken.Spec
